@@ -98,7 +98,7 @@ func streamBloom(r *Run) {
 	entriesPool := []uint64{1, 2, 63, 64, 100, 300, 511, 512, 513, 1000, 1023, 1024, 1025, 2047, 2048, 2049, 4095, 4096, 4097,
 		8191, 8192, 8193, 10000, 16384, 32767, 32768, 32769, 65535, 65536, 65537}
 	bigPool := []uint64{1<<17 - 1, 1 << 17, 1<<17 + 1, 1<<20 - 1, 1 << 20, 1<<20 + 1, 1<<22 + 1}
-	locsPool := []uint64{1, 1, 2, 3, 4, 5, 7, 8, 13, 64}
+	locsPool := []uint64{1, 1, 2, 3, 4, 5, 7, 8, 13, 31, 32, 33, 63, 64, 65, 66, 74, 100, 129} // also more locations than a machine word has bits
 	rates := []float64{0.5, 0.1, 0.03, 0.01, 0.001, 0.0001, 0.999}
 	rateEntries := []float64{1, 2, 10, 50, 100, 341, 1000, 5000, 20000}
 	nCases := 30 * r.Scale
